@@ -43,11 +43,11 @@ func init() {
 			return 1280
 		},
 		Batches: func(t string) int { return 16 },
-		Rule: fmt.Sprintf("each case = %d generated values of the type family (all int/uint widths, bool, string, []byte, byte/int arrays, *big.Int, HexInt, nested structs with embedded and unexported fields, pointers nil/non-nil, slices nil/empty/long, maps with string/int/uint keys incl. nested, types with RLPEncodeSelf/BinaryMarshaler/MarshalRLP codecs, TypedObj trees) encoded, encoded again, decoded and compared (numbers, bytes, nil-ness of every slice/map/pointer); maps rebuilt in another insertion order must encode to the same bytes and their keys must be strictly ascending when the encoding is read by the harness's own RLP reader; + %d hostile inputs (random bytes, mutated valid encodings, truncations, size fields up to 2^64-1 with few bytes following, non-minimal headers, nesting up to 350 (thorough 1050)) decoded into a family type and through UnmarshalAny: no panic, truncated top-level item => error, bounded allocation, and an accepted input must re-encode and decode to the same value; + %d crafted integers per case: an integer byte string is accepted only if the decoded value equals the encoded number (no overflow/truncation for int8..int64, uint8..uint64, bool), in-range minimal encodings are accepted; + %d MarshalAny/UnmarshalAny trees. Non-trivial = distinct (type, encoding) with a list or >= 3 bytes.", nRoundTrip, nHostile, nOverflow, nAny),
+		Rule: fmt.Sprintf("each case = %d generated values of the type family (all int/uint widths, bool, string, []byte, byte/int arrays, *big.Int, HexInt, nested structs with embedded and unexported fields, pointers nil/non-nil, slices nil/empty/long, maps with string/int/uint keys incl. nested, types with RLPEncodeSelf/BinaryMarshaler/MarshalRLP codecs, TypedObj trees) encoded, encoded again, decoded and compared (numbers, bytes, nil-ness of every slice/map/pointer); maps rebuilt in another insertion order must encode to the same bytes and their keys must be strictly ascending when the encoding is read by the harness's own RLP reader; + %d hostile inputs (random bytes, mutated valid encodings, truncations, size fields up to 2^64-1 with few bytes following, non-minimal headers, nesting up to 350 (thorough 1050)) decoded into a family type and through UnmarshalAny: no panic, a fixed valid encoding decoded right afterwards still yields its value (no decoder state kept between calls), truncated top-level item => error, bounded allocation, and an accepted input must re-encode and decode to the same value; + %d crafted integers per case: an integer byte string is accepted only if the decoded value equals the encoded number (no overflow/truncation for int8..int64, uint8..uint64, bool), in-range minimal encodings are accepted; + %d MarshalAny/UnmarshalAny trees. Non-trivial = distinct (type, encoding) with a list or >= 3 bytes.", nRoundTrip, nHostile, nOverflow, nAny),
 		MinNonTrivial: func(t string) int { return 50000 },
 		Required: []string{"roundtrip_values", "encode_twice_equal", "map_order_checked", "map_rebuilt_equal", "nil_slices", "empty_slices", "nil_maps", "empty_maps", "nil_pointers",
 			"long_payloads", "hostile_inputs", "hostile_rejected", "hostile_accepted", "hostile_reencode_checked", "top_truncated_rejected", "alloc_guard_checked",
-			"overflow_rejected", "int_in_range_accepted", "any_roundtrips", "any_hostile", "stream_api_roundtrips", "custom_codec_values"},
+			"overflow_rejected", "int_in_range_accepted", "any_roundtrips", "any_hostile", "stream_api_roundtrips", "custom_codec_values", "canary_decodes"},
 		Assumptions: []string{
 			"Go reflect/math/big and the harness's own RLP header reader are the reference",
 			"supported values: shapes whose nil/empty forms the format can tell apart (no pointer-to-slice/map/pointer, no interface fields, custom codecs only where addressable); []byte inside a BinaryMarshaler type is compared without nil-ness",
@@ -117,6 +117,26 @@ func unmarshalAny(in []byte) (v interface{}, err error, pan interface{}) {
 type chk struct {
 	c *ev.Ctx
 	r *rand.Rand
+}
+
+// canary: a fixed valid encoding decoded after every hostile input
+type canaryT struct {
+	S string
+	N int32
+	U uint16
+}
+
+var canaryWant = canaryT{"abcdefgh-canary", -123456, 0xbeef}
+var canaryEnc = codec.BC.MustMarshalToBytes(&canaryWant)
+
+func decodeCanary(out *canaryT) (rest []byte, err error, pan interface{}) {
+	defer func() {
+		if r := recover(); r != nil {
+			pan = r
+		}
+	}()
+	rest, err = codec.BC.UnmarshalFromBytes(canaryEnc, out)
+	return
 }
 
 func fam(name string) famType {
@@ -495,6 +515,21 @@ func (k *chk) hostile(sub int, deepLeft *int) {
 		return
 	}
 	trunc := topLevelTruncated(in)
+	if err == nil && trunc {
+		c.Violation("decode.accepts-size-beyond-input", wit(map[string]interface{}{"decoded": fmt.Sprintf("%+v", v.Interface())}))
+	}
+	// the decoder keeps no state between calls: a valid encoding decoded right
+	// after the hostile one must still give its value
+	{
+		var canary canaryT
+		_, cerr, cpan := decodeCanary(&canary)
+		c.Count("canary_decodes", 1)
+		if cpan != nil || cerr != nil || canary != canaryWant {
+			c.Violation("decode.state-leak.next-valid-decode-corrupted", wit(map[string]interface{}{"hostile_decode_err": fmt.Sprint(err),
+				"next_input": hx(canaryEnc), "next_expected": fmt.Sprintf("%+v", canaryWant), "next_got": fmt.Sprintf("%+v", canary), "next_err": fmt.Sprint(cerr), "next_panic": fmt.Sprint(cpan)}))
+			return
+		}
+	}
 	if err != nil {
 		c.Count("hostile_rejected", 1)
 		if trunc {
@@ -503,7 +538,6 @@ func (k *chk) hostile(sub int, deepLeft *int) {
 	} else {
 		c.Count("hostile_accepted", 1)
 		if trunc {
-			c.Violation("decode.accepts-size-beyond-input", wit(map[string]interface{}{"decoded": fmt.Sprintf("%+v", v.Interface())}))
 			return
 		}
 		// an accepted input yields a supported value: it must re-encode and round-trip
@@ -615,7 +649,11 @@ func (k *chk) overflow(sub int) {
 	var target reflect.Type
 	var in []byte
 	var get func(v reflect.Value) reflect.Value
-	switch r.Intn(4) {
+	shape := r.Intn(4)
+	if shape == 2 && ik.t.Kind() == reflect.Uint8 {
+		shape = 0 // []uint8 is a byte string, not a list of numbers
+	}
+	switch shape {
 	case 0:
 		target, in, get = ik.t, item, func(v reflect.Value) reflect.Value { return v }
 	case 1:
